@@ -15,7 +15,13 @@ pub fn main(args: &[String]) {
     let mut pel: Vec<Shard> = (0..nsh).map(|k| Shard::create(&dir, "pel-sim", k)).collect();
     let mut plog: Vec<Shard> = (0..nsh).map(|k| Shard::create(&dir, "plog-sim", k)).collect();
     let mut rec = Recorder { shards, rr: 0, calls: 0, panics: Default::default(), hist: Default::default(), enabled: true };
-    for k in 0..runs {
+    // --only K: just run number K of the campaign (same seed, profile and flags), with its call trace printed
+    let only: Option<usize> = arg(args, "--only", "").parse().ok();
+    let range = match only {
+        Some(k) => k..k + 1,
+        None => 0..runs,
+    };
+    for k in range {
         let mut sim = Sim::new(seed.wrapping_mul(1_000_003).wrapping_add(k as u64), rec);
         sim.keep_trace = arg(args, "--trace", "0") != "0";
         sim.trace_tail = arg(args, "--trace", "0").parse().unwrap_or(60);
@@ -25,7 +31,16 @@ pub fn main(args: &[String]) {
         sim.fixed_conf = k % 4 < 2;
         // run profiles: rare operations of one area at a higher rate
         sim.focus = ((k / 4) % 5) as u8;
+        if only.is_some() {
+            sim.keep_trace = true;
+            sim.quiet = true;
+        }
         sim.run(steps);
+        if only.is_some() {
+            for l in &sim.trace {
+                println!("TRACE {}", l);
+            }
+        }
         if !sim.adversarial {
             let (c, i) = sim.pt.lines();
             pel[k % nsh].put("pelection", &c, &i);
